@@ -20,6 +20,7 @@ import random
 import re
 import shutil
 import tempfile
+import time
 
 from vsim import steps, world, specgen, shrink, fsfault
 from vsim.digest import ProbeSet
@@ -1018,9 +1019,15 @@ class C17(Engine):
                 kills += 1
                 result.stats['compiler-process-slow-retried'] += 1
                 history.append([name, None, fault, 'killed-by-driver-45s'])
-                outcome = fsfault.run_child(in_child, cache, fault=fault,
-                                            urandom_seed=urandom_seed,
-                                            wall_timeout=900)
+                started = time.time()
+                world.compile_text('A DEFINITIONS ::= BEGIN B ::= INTEGER END',
+                                   'ber')
+                # How slow is this machine right now?  (A trivial compile
+                # takes about 50 ms when it is idle.)
+                slowdown = max(1.0, (time.time() - started) / 0.05)
+                outcome = fsfault.run_child(
+                    in_child, cache, fault=fault, urandom_seed=urandom_seed,
+                    wall_timeout=min(900, 60 + 15 * slowdown))
 
             if outcome['status'] == 'timeout':
                 # Not an error, not a codec: the process had to be killed
@@ -1043,6 +1050,10 @@ class C17(Engine):
 
                 if io_fault:
                     io_errors_pending = True
+
+                if not (tainted or io_fault):
+                    # Every further compile would hang the same way.
+                    break
 
                 continue
 
